@@ -162,6 +162,11 @@ class LenInterp(object):
                     else:
                         out.append((OTHER, st3))
             return out
+        if isinstance(e, ast.Call) and isinstance(e.func, ast.Name) and e.func.id == "sum" and \
+                len(e.args) in (1, 2) and not e.keywords:
+            r = self.sum_call(e, st, depth)
+            if r is not None:
+                return r
         if isinstance(e, ast.Call):
             return self.call(e, st, depth)
         if isinstance(e, (ast.Compare, ast.BoolOp, ast.IfExp, ast.Tuple, ast.List, ast.Dict,
@@ -179,6 +184,61 @@ class LenInterp(object):
             return [(OTHER, s2) for s2 in sts]
         raise AnalysisError("Length: unrecognised expression %s (%s:%s)" % (
             pyfront.unparse(e)[:60], REL, getattr(e, "lineno", "?")))
+
+    def sum_call(self, e, st, depth):
+        """sum(<tuple/list/set literal>) and sum(<elt> for x in <literal>):
+        the polynomial sum of the elements.  A set literal loses equal
+        elements: a second outcome gives the sum when two of them coincide."""
+        arg = e.args[0]
+        elt = var = None
+        if isinstance(arg, ast.GeneratorExp) or isinstance(arg, ast.ListComp):
+            if len(arg.generators) != 1 or arg.generators[0].ifs or \
+                    not isinstance(arg.generators[0].target, ast.Name):
+                return None
+            elt, var, coll = arg.elt, arg.generators[0].target.id, arg.generators[0].iter
+        else:
+            coll = arg
+        if not isinstance(coll, (ast.Tuple, ast.List, ast.Set)):
+            return None
+        combos = [([], st)]
+        for x in coll.elts:
+            combos = [(vs + [v], s3) for vs, s2 in combos for v, s3 in self.ev(x, s2, depth)]
+        out = []
+        for vals, st2 in combos:
+            if not all(isinstance(v, dict) for v in vals):
+                out.append((OTHER, st2))
+                continue
+            variants = [vals]
+            if isinstance(coll, ast.Set) and len(vals) > 1:
+                variants.append(vals[:-1])          # two elements equal: one of them is dropped
+            for vs in variants:
+                total = p_const(0)
+                sts = [(total, st2)]
+                for v in vs:
+                    if elt is None:
+                        sts = [(p_add(t, v), s3) for t, s3 in sts]
+                    else:
+                        nxt = []
+                        for t, s3 in sts:
+                            env3 = dict(s3[0])
+                            env3[var] = v
+                            for ev_, s4 in self.ev(elt, (env3, s3[1], s3[2]), depth):
+                                if isinstance(ev_, dict):
+                                    nxt.append((p_add(t, ev_), (s3[0], s4[1], s4[2])))
+                                else:
+                                    nxt.append((OTHER, (s3[0], s4[1], s4[2])))
+                        sts = nxt
+                    sts = [(t if isinstance(t, dict) else OTHER, s3) for t, s3 in sts]
+                    if any(not isinstance(t, dict) for t, _ in sts):
+                        break
+                if len(e.args) == 2:
+                    nxt = []
+                    for t, s3 in sts:
+                        for sv, s4 in self.ev(e.args[1], s3, depth):
+                            nxt.append((p_add(t, sv) if isinstance(t, dict) and isinstance(sv, dict) else OTHER, s4))
+                    sts = nxt
+                out.extend(sts)
+        return out
 
     def call(self, c, st, depth):
         if depth > self.MAX_DEPTH:
@@ -276,6 +336,20 @@ class LenInterp(object):
                         out.append((env2, v, others2))
                     else:
                         out.append((env2, cell2, others2 | {target.attr}))
+                else:
+                    out.append(st2)
+            return out
+        if isinstance(target, ast.Subscript) and isinstance(target.value, ast.Attribute) and \
+                target.value.attr == "__dict__":
+            out = []
+            for base, st2 in self.ev(target.value.value, st, depth):
+                env2, cell2, others2 = st2
+                if base is SELF:
+                    key = target.slice.value if isinstance(target.slice, ast.Constant) else None
+                    if key == "value" and isinstance(v, dict):
+                        cell2 = v
+                    # a store that bypasses Persistent.__setattr__: no change registration
+                    out.append((env2, cell2, others2 | {"__dict__[%r] (bypasses change registration)" % (key,)}))
                 else:
                     out.append(st2)
             return out
@@ -410,7 +484,9 @@ def check():
                 bad = "raises at line %s" % oc.line
             elif oc.cell != want_cell:
                 bad = "leaves value = %s" % show(oc.cell)
-            elif oc.others:
+            elif oc.others and not (name in ("__setstate__", "__init__") and
+                                    oc.others == {"__dict__['value'] (bypasses change registration)"}):
+                # (installing a state / constructing need not register a change)
                 bad = "writes %s" % ", ".join("self.%s" % a for a in sorted(oc.others))
             elif want_ret is not None and not (oc.kind == "return" and oc.value == want_ret):
                 bad = "returns %s" % (show(oc.value) if isinstance(oc.value, dict) else repr(oc.value))
